@@ -307,7 +307,9 @@ func runCase(c Case, st *ev.Stats) (err error) {
 		}
 		queued := map[k]int{}
 		for _, mut := range run.Tracer.QueuedSnapshot() {
-			if mut.IsCheck || mut.IsAuto {
+			// (an identical queued AUTO mutation stands in as well: the duplicate detection compares type, called
+			// states and args only, and an auto Add of the same states attempts the same activation)
+			if mut.IsCheck {
 				continue
 			}
 			op := ""
